@@ -1394,9 +1394,12 @@ int64_t OPNMIDIplay::calculateChipChannelGoodness(size_t c, const MIDIchannel::N
         MIDIchannel::notes_iterator
         k = const_cast<MIDIchannel &>(m_midiChannels[jd.loc.MidCh]).find_activenote(jd.loc.note);
 
-        // A sostenuto mark on a note whose key is still down does not make it a released, pedal-held note
+        // A sostenuto mark on a note whose key is still down does not make it a released, pedal-held note.
+        // The key is down when the active note of that key sounds on this very chip channel (a re-struck
+        // key has an active note too, but elsewhere, while the held one lingers here)
+        const bool keyDown = !k.is_end() && const_cast<MIDIchannel::NoteInfo &>(k->value).phys_find(static_cast<unsigned>(c)) != NULL;
         int64_t kon_ms = jd.kon_time_until_neglible_us / 1000;
-        s -= (jd.sustained == OpnChannel::LocationData::Sustain_None || !k.is_end()) ?
+        s -= (jd.sustained == OpnChannel::LocationData::Sustain_None || keyDown) ?
             (4000000 + kon_ms) : (500000 + (kon_ms / 2));
 
         if(!k.is_end())
